@@ -10,12 +10,12 @@ import (
 	"crypto/elliptic"
 	"fmt"
 
+	"github.com/tink-crypto/tink-go/v2/aead/aesgcm"
 	aeadsubtle "github.com/tink-crypto/tink-go/v2/aead/subtle"
 	daeadsubtle "github.com/tink-crypto/tink-go/v2/daead/subtle"
 	"github.com/tink-crypto/tink-go/v2/hybrid/ecies"
 	hybridsubtle "github.com/tink-crypto/tink-go/v2/hybrid/subtle"
 	"github.com/tink-crypto/tink-go/v2/internal/verifharness/hlib"
-	"github.com/tink-crypto/tink-go/v2/aead/aesgcm"
 	kwpsubtle "github.com/tink-crypto/tink-go/v2/kwp/subtle"
 	macsubtle "github.com/tink-crypto/tink-go/v2/mac/subtle"
 	prfsubtle "github.com/tink-crypto/tink-go/v2/prf/subtle"
